@@ -39,6 +39,8 @@ CONFIGS = ('default', 'keep_all', 'keep_file')
 
 def minify_lib(chunks, args):
     from pico8.lua import lua as plua
+    from vlib import prelude
+    prelude.lua()
     l = plua.Lua.from_lines(list(chunks), version=8)
     out = b''.join(l.to_lines(writer_cls=plua.LuaMinifyTokenWriter, writer_args=args))
     # the same object minified once more (a tool that measures, then writes - as the .p8 writer does): if that differs
